@@ -715,10 +715,18 @@ def main():
   rep = common.Report("C09", "exploration")
   rep.assumptions += [
     common.SHIM_ASSUMPTION,
-    "bounded: seeded random histories over 8 seed documents (one of them, 'views', defined in this "
-    "check: extra page, summary section, display column, conditional rules); 55% of the bundles are "
-    "view / section / field / display-formula / rule / summary / removal actions generated from the "
-    "current metadata, 6% undo of the previous bundle; not a proof",
+    "bounded: seeded random histories over %d seed documents (four of them defined in this check: "
+    "'views' - extra page, summary section, display column, conditional rules; 'refs_into_summary'; "
+    "'field_display' / 'field_display_wide' - reference fields with their own visible column and "
+    "display helper on page widgets and record cards, two linked widgets of one table, laid out so "
+    "that field / section ids coincide with column ids); 55%% of the bundles are view / section / "
+    "field / display-formula (column- and field-level) / rule / summary / removal (one column, two "
+    "columns of one table, table, section, view, page, field) actions generated from the current "
+    "metadata, 6%% undo of the previous bundle; not a proof" % len(ALL_SEEDS),
+    "removal sweep: every single removal action applicable to each seed document (exhaustive over "
+    "that finite set, see coverage.removal_sweep), one fresh engine per removal",
+    "fixed witness histories of two known findings the random part does not reach; one of them "
+    "shows a column twice in one widget, which is outside the random part's precondition",
     "requires (checked by the monitor on the pre-state of every bundle; a history that breaks it is "
     "not evaluated further): record edits of _grist_* tables only write reference values that "
     "exist, as first action of their bundle; a field only gets a visible column (not manualSort / "
@@ -726,16 +734,20 @@ def main():
     "summary sections are not grouped by manualSort / gristHelper_* columns",
     "a history in which a FAILED bundle left a trace in the metadata (C04's concern) is not "
     "evaluated further",
-    "a view section's parentId (view) may be 0: raw and record-card sections are outside any view",
+    "a view section's parentId (view) may be 0 only for a table's raw or record-card section "
+    "(C09.section_has_view)",
     "metadata is observed through Engine.fetch_table"]
   rep.coverage["rule"] = ("one evaluation = one bundle applied to the real engine followed by the "
-                          "seven clauses over all _grist_* tables (%d Ref/RefList columns derived "
+                          "eight clauses over all _grist_* tables (%d Ref/RefList columns derived "
                           "from schema.schema_create_actions()); non-trivial = the bundle changed "
                           "the document or raised" % len(ref_columns()))
   rep.coverage["ref_columns_checked"] = len(ref_columns())
   from checks import C02
   C02.tune_explore(4)
   sweep = removal_sweep_start()
+  # the first DuplicateTable of a process spends seconds filling astroid's caches: do it once here,
+  # before the workers are forked, instead of once in every worker (bundle time limit under load)
+  eng.apply(_seed_engine("basic"), [["DuplicateTable", "A", "Dup", False]])
   explore.explore(rep, "checks.C09", "C09Monitor", n_quick=176, budget_quick_s=28)
   removal_sweep_collect(rep, sweep)
   run_witnesses(rep)
